@@ -529,7 +529,7 @@ def run(ctx) -> None:
     # ---------------------------------------------------------------- R13.7
     # the providers of band groups / weights / k-space matrices memoise on the Data_K / TetraWeights object: a key that leaves out a
     # parameter (e.g. the sea flag) hands the surface groups to a Fermi-sea calculator that asks for the same window later
-    r7 = ctx.rule("R13.7", "memoised providers: the cache key covers every parameter the cached value depends on", min_instances=5)
+    r7 = ctx.rule("R13.7", "memoised providers: the cache key covers every parameter the cached value depends on", min_instances=3)
     from .memo import check_memo_keys
     for f_ in idx.all_functions():
         rp_ = f_.module.relpath
